@@ -19,7 +19,7 @@ LEVEL_TEXT = ("Static structural proof of necessary conditions: (R8.1) in the co
               "with their published codes and reachable from Sidecar.validate; (R8.4) error contexts balanced. Totality "
               "beyond explicit type guards, 'valid sidecar => no error' and reference expansion over all combinations "
               "are NOT decided.")
-LEVEL_EXTRA = "Added after the seeded evaluation: (R8.2) the table indexed by screened reference names is built from the whole sidecar, unfiltered; (R8.5) one reference pattern in all passes; (R8.6) '#' counted on a copy with definitions removed and Def-expand shrunk; (R8.7) results of per-entry loops are accumulated, never last-wins (one frozen exception). (R8.8) no issue list is discarded inside the sidecar validator. (R8.9) every entry passes the placeholder count (known finding F-C08-5 today)."
+LEVEL_EXTRA = "Added after the seeded evaluation: (R8.2) the table indexed by screened reference names is built from the whole sidecar, unfiltered; (R8.5) one reference pattern in all passes; (R8.6) '#' counted on a copy with definitions removed and Def-expand shrunk; (R8.7) results of per-entry loops are accumulated, never last-wins (one frozen exception). (R8.8) no issue list is discarded inside the sidecar validator. (R8.9) every entry passes the placeholder count (known finding F-C08-5 today). (R8.12) every loaded entry reaches the column checks and the reserved-name test is met on every path."
 
 ROWS = [
     {"key": "SidecarErrors.BLANK_HED_STRING", "code": None},
@@ -302,6 +302,31 @@ def run(ctx):
         funcs.append(ed)
     ctx.floor("R8.4", "functions with push/pop", len(funcs), 5)
     check_balance(ctx, "R8.4", funcs)
+
+    # ---------------- R8.12: every top-level entry reaches the structural checks, the reserved name first
+    ctx.rule("R8.12", "validate_structure hands every loaded entry to the column checks; the reserved-name test is met on every path")
+    from sa.dom import iteration_can_skip
+    vst = sv.methods.get("validate_structure")
+    vcs = sv.methods.get("_validate_column_structure")
+    if vst is None or vcs is None:
+        raise AnalysisError("anchors SidecarValidator.validate_structure/_validate_column_structure vanished")
+    ctx.saw(vst, vcs)
+    v12 = view(ctx, vst)
+    calls12 = [n_ for (n_, c) in v12.calls(lambda c: call_name(c) == "_validate_column_structure")]
+    loops12 = [lp for lp in walk_no_nested(vst.node) if isinstance(lp, ast.For) and "loaded_dict" in norm(lp.iter)]
+    ctx.floor("R8.12", "per-entry loops in validate_structure", len(loops12), 1)
+    for lp in loops12:
+        ctx.check(bool(calls12) and not iteration_can_skip(v12, lp, calls12), "R8.12", vst.qualname, lp.iter, loc(vst, lp),
+                  "an entry of the sidecar can be passed over without the column checks: `{\"HED\": \"Red\"}` (the reserved name with a "
+                  "non-object value) is then not reported as SIDECAR_HED_USED_COLUMN", desc="every entry reaches _validate_column_structure")
+    v12b = view(ctx, vcs)
+    res = v12b.conds(lambda t: "reserved_column_names" in norm(t))
+    ctx.floor("R8.12", "reserved-name tests in _validate_column_structure", len(res), 1)
+    for c in res:
+        r = v12b.reachable_from_entry(avoid={c})
+        ctx.check(v12b.cfg.exit not in r, "R8.12", vcs.qualname, c.ast, loc(vcs, c.ast),
+                  "_validate_column_structure can return without having tested the column name against the reserved names",
+                  desc="reserved-name test on every path")
 
 
 REF_FUNCS = {"findall": 2, "finditer": 2, "search": 2, "match": 2, "fullmatch": 2, "sub": 3, "split": 2, "compile": 1}
